@@ -150,7 +150,9 @@ theorem C15_clean (s : St) (ch rate mx nom mn : Int) (req : Dbl) :
         · simp only [hi, Bool.not_true, Bool.false_eq_true, if_false]
           by_cases hc : ch < 1 ∨ ch > 255
           · right; simp [hc, EINVAL, Generated.OV_EINVAL]
-          · left; simp [hc]; omega
+          · by_cases hst : s.stone = true
+            · right; simp [hc, hst, EINVAL, Generated.OV_EINVAL]
+            · left; simp [hc, hst]; omega
         · right; simp [hi, EINVAL, Generated.OV_EINVAL]
   · simp only [initManaged, setupManaged, setupInit]
     by_cases hr : rate ≤ 0
@@ -165,7 +167,9 @@ theorem C15_clean (s : St) (ch rate mx nom mn : Int) (req : Dbl) :
           · simp only [hi, Bool.not_true, Bool.false_eq_true, if_false]
             by_cases hc : ch < 1 ∨ ch > 255
             · right; simp [hc, EINVAL, Generated.OV_EINVAL]
-            · left; simp [hc]; omega
+            · by_cases hst : s.stone = true
+              · right; simp [hc, hst, EINVAL, Generated.OV_EINVAL]
+              · left; simp [hc, hst]; omega
           · right; simp [hi, EINVAL, Generated.OV_EINVAL]
 
 /-- non-vacuity: 44.1 kHz stereo at quality 0.41 selects template 0, interval 5 -/
